@@ -489,7 +489,7 @@ def run_symbolic_storage(case, acc=None):
 
 
 def shards(tier):
-    n = 110 if tier == "quick" else 2500
+    n = 250 if tier == "quick" else 3000
     return [{"mode": "prog", "n": n} for _ in range(11)] + [{"mode": "symst", "n": n} for _ in range(2)] + [{"mode": "pairs", "n": 5 * n} for _ in range(2)] + [{"mode": "twotx"}]
 
 
